@@ -21,6 +21,7 @@ type Promise struct {
 
 	// execution control
 	cutParent *Promise
+	cutDone   *Promise // the parent this promise has already cut to
 	repeat    bool
 	recover   func(error) *Promise
 }
@@ -101,7 +102,7 @@ func (p *Promise) Force(ctx context.Context) (ok bool, err error) {
 			// If cut, we eliminate other possibilities.
 			if p.cutParent != nil {
 				stack.popUntil(p.cutParent)
-				p.cutParent = nil // we don't have to do this again when we revisit.
+				p.cutDone, p.cutParent = p.cutParent, nil // we don't have to do this again when we revisit.
 			}
 
 			// Try the child promises from left to right.
@@ -140,9 +141,10 @@ func (s *promiseStack) pop() *Promise {
 	return p
 }
 
+// popUntil pops promises until it pops p, or a promise that has already cut to p and thus stands in its place.
 func (s *promiseStack) popUntil(p *Promise) {
 	for len(*s) > 0 {
-		if pop := s.pop(); pop == p {
+		if pop := s.pop(); pop == p || pop.cutDone == p {
 			break
 		}
 	}
